@@ -43,6 +43,7 @@ IN_P = P([-0.3, -0.3], [0.3, -0.2], [-0.2, 0.3])    # contained in C1
 FAR_C = C([3, 0.2], 0.5)                        # disjoint from everything near the origin
 FAR_P = P([2.5, 1], [3.5, 1.2], [2.4, 1.9])
 G_CMOVE = C([aff(0.3, t=0.4), 0.5], 0.2)        # moving hole, inside SQ for t in [0,1]
+SQ_MOVE2 = P([aff(0.35, t=0.4), 0.2], [aff(1.35, t=0.4), 0.2], [aff(0.35, t=0.4), 1.2])   # overlaps SQ partially for every t
 G_CGROW = C([0.9, 0.6], aff(0.3, t=0.3))
 
 # ---- 1-D / 3-D leaves ---------------------------------------------------------------------
@@ -109,7 +110,7 @@ def booleans2(tier):
     if tier == "thorough":
         out += [Cut(SLP, IN_C), U(SLP, FAR_P, disjoint=True), Cut(C_GROW, IN_P), N(SQ_MOVE, C1),
                 Cut(HOLE, C([1.5, 0.4], 0.7)), U(LSH, C([2, 2], 0.8)), N(LSH, C([1, 1], 0.9)),
-                Cut(SQ_CW, IN_C, contained=True), U(SQ, SQ_MOVE), N(SQ, SQ_MOVE)]
+                Cut(SQ_CW, IN_C, contained=True), U(SQ, SQ_MOVE2), N(SQ, SQ_MOVE2)]
     return out
 
 
@@ -139,7 +140,7 @@ def nested2(tier):
                         out.append(op2(op1(f, g), h))
                         out.append(op1(f, op2(g, h)))
     out += [Cut(U(SQ, G_C), IN_C), U(Cut(SQ, IN_C, contained=True), FAR_C, disjoint=True),
-            Cut(Cut(SQ, IN_C, contained=True), G_CMOVE), N(U(SQ_MOVE, G_C), C1)]
+            Cut(Cut(SQ, IN_C, contained=True), G_CMOVE), N(U(SQ_MOVE2, G_C), C1)]
     return out
 
 
@@ -232,6 +233,8 @@ def _pos(s):
 
 def positive_measure(a, theta):
     """reference measure of a solid same-space expression at parameter row theta >= 1% of its box"""
+    if a["k"] == "boundary":
+        return positive_measure(a["a"], theta)
     if not G.is_solid(a) or a["k"] == "prod":
         return True
     vals = {v: np.array([[x]]) for v, x in theta.items()}
